@@ -186,7 +186,7 @@ def run(ctx):
         extra.append({"seed": ctx.seed * 100000 + 500000 + r, "n": 1500, "pi0": 0.5, "sep": [2.0, 3.0][r % 2], "folds": 2 + r % 3,
                       "est": "memo", "cap": 500 + 100 * (r % 3), "group": "memo+cap"})
         extra.append({"seed": ctx.seed * 100000 + 600000 + r, "n": 1600, "pi0": 0.5, "sep": [2.5, 3.0][r % 2], "folds": 2 + r % 3,
-                      "est": ["feat", "tree"][r % 2], "family": "paired", "group": "paired-ties"})
+                      "est": ["feat", "tree"][r % 2], "family": "paired", "group": "paired-ties/" + ["feat", "tree"][r % 2]})
     specs += extra
     nleak = 6
     for r in range(nleak):     # instrument check: with leaky training sets the memoriser must break the bound
@@ -201,7 +201,7 @@ def run(ctx):
     # ---- FdrTrace groups: (learner, level, alpha) over replicates
     traces, meta = [], []
     failed_runs = sum(1 for s, r in zip(specs, res) if r["raised"])
-    for est in learners + ["memo+cap", "paired-ties", "memo+leak"]:
+    for est in learners + ["memo+cap", "paired-ties/feat", "paired-ties/tree", "memo+leak"]:      # one group per learner: a mixture of learners would inflate the SE
         sel = [r for s, r in zip(specs, res) if (s.get("group") or (s["est"] + ("+leak" if s.get("leak") else ""))) == est and not r["raised"]]
         if len(sel) < 2:
             continue
